@@ -178,14 +178,15 @@ func wireReachable(req *pb.QueryRequest) (*pb.QueryRequest, []byte, bool) {
 }
 
 type c14Server struct {
-	r      *vf.Run
-	sp     *serverProc
-	conn   *grpc.ClientConn
-	probeB []byte
-	probeW uint64
-	reqLog *os.File
-	dead   bool
-	codes  map[string]int
+	r       *vf.Run
+	sp      *serverProc
+	conn    *grpc.ClientConn
+	probes  []c04Query // well-formed probe queries with known answers, used in rotation
+	probeBs [][]byte
+	nprobe  int
+	reqLog  *os.File
+	dead    bool
+	codes   map[string]int
 }
 
 // send delivers raw request bytes, then a well-formed probe with a known answer.
@@ -215,7 +216,9 @@ func (s *c14Server) send(caseID, class string, req []byte) {
 	// probe
 	ctx, cancel = context.WithTimeout(context.Background(), 60*time.Second)
 	var presp []byte
-	perr := s.conn.Invoke(ctx, pb.QueryService_Query_FullMethodName, &s.probeB, &presp, grpc.ForceCodec(rawCodec{}))
+	pi := s.nprobe % len(s.probes)
+	s.nprobe++
+	perr := s.conn.Invoke(ctx, pb.QueryService_Query_FullMethodName, &s.probeBs[pi], &presp, grpc.ForceCodec(rawCodec{}))
 	cancel()
 	r.Count("probes_sent", 1)
 	if perr != nil {
@@ -236,9 +239,15 @@ func (s *c14Server) send(caseID, class string, req []byte) {
 		return
 	}
 	var pr pb.QueryResponse
-	if uerr := proto.Unmarshal(presp, &pr); uerr != nil || len(pr.Results) != 1 || pr.Results[0].TotalCount != s.probeW {
-		w["probe_response"] = pr.String()
-		w["probe_expected_count"] = s.probeW
+	uerr := proto.Unmarshal(presp, &pr)
+	pdiff := ""
+	if uerr == nil {
+		pdiff = compareBatch(&pr, s.probes[pi:pi+1], []int32{99})
+	}
+	if uerr != nil || pdiff != "" {
+		w["probe_response"] = head(pr.String(), 1500)
+		w["probe"] = fmt.Sprintf("%s ; %q", s.probes[pi].E.String(), s.probes[pi].GB)
+		w["probe_difference"] = pdiff
 		r.Violation(caseID, "wrong-probe-answer-after-request", w)
 		return
 	}
@@ -273,7 +282,20 @@ func runC14(r *vf.Run) {
 	cols := ds.ColNames()
 	probeE := oracle.Eq(cols[0], ds.Vals[cols[0]][0])
 	probeWant := oracle.Eval(ds.Rows, ds.Cols, probeE, nil).Count
-	probeB, _ := proto.Marshal(&pb.QueryRequest{Queries: []*pb.Query{{Id: 99, Expr: probeE.ToProto()}}})
+	// well-formed probes with known answers (leaf, NOT, AND/OR, group-by), used in rotation after every hostile request
+	var probes []c04Query
+	var probeBs [][]byte
+	for i := 0; i < 8; i++ {
+		e := []*oracle.Expr{probeE, oracle.Not(probeE), gen.Expr(rng, ds, cols, 2, 3), gen.Expr(rng, ds, cols, 3, 2)}[i%4]
+		var gb []string
+		if i >= 4 {
+			gb = gen.GroupBy(rng, ds, 1+i%2, 500)
+		}
+		q := c04Query{E: e, GB: gb, Want: oracle.Eval(ds.Rows, ds.Cols, e, gb)}
+		bts, _ := proto.Marshal(&pb.QueryRequest{Queries: []*pb.Query{{Id: 99, Expr: e.ToProto(), GroupBy: gb}}})
+		probes, probeBs = append(probes, q), append(probeBs, bts)
+	}
+	_ = probeWant
 
 	// seed trees
 	var seeds []*oracle.Expr
@@ -331,6 +353,21 @@ func runC14(r *vf.Run) {
 	// 2. random messages over every field combination
 	for i := 0; i < r.Pick(1500, 15000); i++ {
 		addMsg(fmt.Sprintf("random/%d", i), "random-message", randomRequest(rng, cols, 0))
+	}
+	// 2b. very many queries in one request; ids far outside the batch size
+	{
+		many := &pb.QueryRequest{}
+		for i := 0; i < 5000; i++ {
+			many.Queries = append(many.Queries, &pb.Query{Id: int32(i * 7919), Expr: a.ToProto()})
+		}
+		addMsg("many/5000-queries", "many-queries", many)
+		neg := &pb.QueryRequest{}
+		for i := 0; i < 40; i++ {
+			neg.Queries = append(neg.Queries, &pb.Query{Id: int32(-i * 1000003), Expr: b.ToProto(), GroupBy: []string{cols[0], cols[0], cols[0], cols[0], cols[0], cols[0]}})
+		}
+		addMsg("many/negative-ids-repeated-groupby", "many-queries", neg)
+		gbs := &pb.QueryRequest{Queries: []*pb.Query{{Expr: a.ToProto(), GroupBy: make([]string, 3000)}, {Expr: a.ToProto(), GroupBy: []string{"", cols[0], ""}}}}
+		addMsg("many/3000-empty-groupby-columns", "many-queries", gbs)
 	}
 	// 3. deep nesting up to the decoder's limit
 	for _, depth := range []int{100, 2000, 4900, 5100, 9000} {
@@ -431,7 +468,7 @@ func runC14(r *vf.Run) {
 			continue
 		}
 		logf, _ := os.Create(filepath.Join(dir, "requests-"+name+".log"))
-		srv := &c14Server{r: r, sp: sp, conn: conn, probeB: probeB, probeW: probeWant, reqLog: logf, codes: map[string]int{}}
+		srv := &c14Server{r: r, sp: sp, conn: conn, probes: probes, probeBs: probeBs, reqLog: logf, codes: map[string]int{}}
 		for _, h := range reqs {
 			id := "server/" + name + "/" + h.id
 			if !r.Want(id) {
@@ -474,7 +511,7 @@ func randomRequest(rng *rand.Rand, cols []string, depth int) *pb.QueryRequest {
 	req := &pb.QueryRequest{}
 	n := rng.Intn(4)
 	for i := 0; i < n; i++ {
-		q := &pb.Query{Id: int32(rng.Intn(5)) - 1}
+		q := &pb.Query{Id: []int32{-1, 0, 1, 2, 3, 2147483647, -2147483648, 1000000, 65536}[rng.Intn(9)]}
 		if rng.Intn(6) != 0 {
 			q.Expr = randomPBExpr(rng, cols, 0)
 		}
